@@ -2,6 +2,7 @@
 C27 — Strings keep their content through escaping and quoting.
 -/
 import RsassModel.Str.Escape
+import RsassModel.Str.LemmasHex
 namespace C27
 open Str
 
@@ -318,5 +319,76 @@ theorem pipeline_preserves_plain (q : EscQuirks) (lit : List Char)
   have hb := displayBody_plain q lit hnq
   simp [display, prefQuote, hcq, hb]
 example : ∀ c ∈ ['h', 'é', ' ', '😀'], isPlain c = true ∧ isPrivateUse c = false := by decide
+
+
+/-! ### last proof round: hex escapes with `{:x}` digits are read back -/
+
+/-- the `{:x}` digits of any value below 16^8 denote that value, are hex digits, and for a
+code point there are at most six of them -/
+theorem hex_round_trip (n : Nat) (h : n < 0x110000) :
+    hexNum (hexDigits n) = n ∧ (∀ c ∈ hexDigits n, isHex c = true) ∧
+    1 ≤ (hexDigits n).length ∧ (hexDigits n).length ≤ 6 := by
+  refine ⟨hexNum_hexDigits n (by simp; omega), isHex_hexDigits n, ?_, length_hexDigits_le6 n h⟩
+  have := hexDigits_ne_nil n
+  cases hd : hexDigits n with
+  | nil => exact absurd hd this
+  | cons _ _ => simp
+
+/-- a hex escape written as `\` + `{:x}` digits + space (how `normalized_escaped_char_q` stores
+a control character and how `Display` writes a private-use character before a hex digit, space
+or tab) decodes to exactly that code point and the decoder continues after the space -/
+theorem decode_hex_escape_space (n : Nat) (h : n < 0x110000) (rest : List Char) (f : Nat) :
+    decodeCssAux (f + 1) ('\\' :: (hexDigits n ++ ' ' :: rest)) = escChar n :: decodeCssAux f rest := by
+  obtain ⟨hv, hh, h1, h6⟩ := hex_round_trip n h
+  cases hd : hexDigits n with
+  | nil => rw [hd] at h1; simp at h1
+  | cons d ds =>
+    have hdh : isHex d = true := hh d (by rw [hd]; simp)
+    have hnl : ¬ d = '\n' := by intro hc; subst hc; revert hdh; decide
+    have hsp : isHex ' ' = false := by decide
+    have ht : takeHex 6 (d :: (ds ++ ' ' :: rest)) = (d :: ds, ' ' :: rest) := by
+      have := takeHex_run 6 (d :: ds) ' ' rest (by rw [← hd]; exact hh) (by rw [← hd]; exact h6) hsp
+      simpa using this
+    simp only [List.cons_append, decodeCssAux, if_true, hnl, if_false, hdh, ht, dropWs, isWs,
+      decide_true, Bool.true_or]
+    rw [← hd, hv]
+
+/-- the same escape without a terminating space, in front of a character that is neither a
+hex digit nor white space (the form `Display` uses otherwise) -/
+theorem decode_hex_escape_bare (n : Nat) (h : n < 0x110000) (c : Char) (rest : List Char) (f : Nat)
+    (hc : isHex c = false) (hw : isWs c = false) :
+    decodeCssAux (f + 1) ('\\' :: (hexDigits n ++ c :: rest)) =
+      escChar n :: decodeCssAux f (c :: rest) := by
+  obtain ⟨hv, hh, h1, h6⟩ := hex_round_trip n h
+  cases hd : hexDigits n with
+  | nil => rw [hd] at h1; simp at h1
+  | cons d ds =>
+    have hdh : isHex d = true := hh d (by rw [hd]; simp)
+    have hnl : ¬ d = '\n' := by intro hc; subst hc; revert hdh; decide
+    have ht : takeHex 6 (d :: (ds ++ c :: rest)) = (d :: ds, c :: rest) := by
+      have := takeHex_run 6 (d :: ds) c rest (by rw [← hd]; exact hh) (by rw [← hd]; exact h6) hc
+      simpa using this
+    simp only [List.cons_append, decodeCssAux, if_true, hnl, if_false, hdh, ht, dropWs, hw,
+      Bool.false_eq_true]
+    rw [← hd, hv]
+
+/-- every character is the code point its own number denotes (no character is a surrogate or
+beyond U+10FFFF), NUL excepted -/
+theorem escChar_toNat (c : Char) (h0 : c.toNat ≠ 0) : escChar c.toNat = c := by
+  have hv' : c.toNat < 0xD800 ∨ (0xDFFF < c.toNat ∧ c.toNat < 0x110000) := c.valid
+  unfold escChar isSurrogate
+  have : ¬ (c.toNat = 0 ∨ (decide (55296 ≤ c.toNat) && decide (c.toNat ≤ 57343)) = true ∨ 1114111 < c.toNat) := by
+    simp; omega
+  simp only [this, if_false]
+  exact Char.ofNat_toNat c
+
+/-- consequently the private-use escape that `Display` writes (with its terminator) is read
+back as the private-use character itself -/
+theorem decode_display_escape (c : Char) (h0 : c.toNat ≠ 0) (rest : List Char) (f : Nat) :
+    decodeCssAux (f + 1) ('\\' :: (hexDigits c.toNat ++ ' ' :: rest)) = c :: decodeCssAux f rest := by
+  have hlt : c.toNat < 0x110000 := by
+    have hv' : c.toNat < 0xD800 ∨ (0xDFFF < c.toNat ∧ c.toNat < 0x110000) := c.valid
+    omega
+  rw [decode_hex_escape_space c.toNat hlt, escChar_toNat c h0]
 
 end C27
